@@ -148,7 +148,9 @@ struct ScriptClock {
 impl Clock for ScriptClock {
     fn synchronize(&mut self, deadline: MonotonicTime) -> SyncStatus {
         if !*self.armed.lock().unwrap() {
-            return SyncStatus::Synchronized; // the synchronize() of SimInit::init is not part of the script
+            // the synchronize() of SimInit::init is not part of the script; it is reported separately
+            self.sh.log(format!("initsync {}", from_time(deadline)));
+            return SyncStatus::Synchronized;
         }
         self.sh.log(format!("sync {}", from_time(deadline)));
         let k = self.n;
@@ -246,6 +248,9 @@ fn verif_run_script() {
     }
     let (mut simu, scheduler): (_, Scheduler) = init.init(to_time(t0)).unwrap();
     *armed.lock().unwrap() = true;
+    for e in sh.log.lock().unwrap().drain(..) {
+        println!("VERIF-INIT {}", e);
+    }
     let mut src: EventSource<u64> = EventSource::new();
     src.connect(R::fire, &addr_a);
     {
